@@ -35,6 +35,26 @@ JStations(r) ==
                                          /\ StationAllowed(v, closed, r.dim, 2 * c[Len(v)], 0, o.back))
 
 
+\* general lattice polylines (irrational edge lengths): a station requested k/8 of the way along edge e (by arc length taken
+\* from the curve's own table) is the exact rational point (8 - k)/8 v[e] + k/8 v[e+1]; its direction is a unit vector
+\* (|d|^2 - 1 within 2^-44) parallel to and along the edge (sine below 2^-34) inside an edge; index and fraction reproduce
+\* the point (2^-24 unit) and the length along (2^-34 of the total); in 2D the normal is a unit vector perpendicular to it.
+FreeRowOK(v, dim, e, k, row) ==
+    /\ row.some
+    /\ \A a \in 1..3 : AbsC(row.p[a] - (QP \div 8) * ((8 - k) * v[e][a] + k * v[e + 1][a])) <= 2
+    /\ AbsC(row.u) <= 64
+    /\ (k > 0 /\ k < 8) => (row.par <= 64 /\ row.fwd)
+    /\ row.res <= 64 /\ row.lares <= 64
+    /\ dim = 2 => (AbsC(row.nu) <= 64 /\ ((k > 0 /\ k < 8) => AbsC(row.nd) <= 64))
+JFree(r) ==
+    LET o == r.out v == Built(r.pts, r.tolU, r.fc, r.dim) IN
+    /\ Clause(i, "C01.construct.ok", o.ok)
+    /\ o.ok =>
+        /\ Clause(i, "C01.shape", o.n = Len(v) /\ Len(o.rows) = Len(r.req))
+        /\ (o.n = Len(v) /\ Len(o.rows) = Len(r.req)) =>
+            /\ Clause(i, "C01.finite", o.finite)
+            /\ ClauseAll(i, "C01.free.station", 1..Len(r.req), LAMBDA j : FreeRowOK(v, r.dim, r.req[j][1] + 1, r.req[j][2], o.rows[j]))
+
 \* ------------------------------------------------------------------ C04
 ClauseB(name, cond) == IF cond THEN TRUE ELSE (PrintT(<<"REJECT", i, name>>) /\ FALSE)
 Dec(e) == IF e[2] = 1 THEN d.T - e[1] ELSE e[1]       \* decode a half-length parameter
@@ -156,6 +176,24 @@ JSimplify(r) ==
     /\ Clause(i, "C05.simplify.closedness", o.closed = o.src_closed)
     /\ (idx # <<>> /\ exact) => Clause(i, "C05.simplify.within_tolerance", SimplifyOK(Unq(o.src), r.e4, idx))
 
+\* long shallow polylines: vertex k is (X_k * K, y_k, z_k) with K = 2^kx >= 2^20, X strictly increasing small integers and y, z a
+\* few units.  For a discarded vertex p between consecutive kept vertices a, b the squared distance to the segment is
+\*   K^2 C2 / (K^2 dX^2 + dy^2 + dz^2)   with  C2 = (pz dX - pX dz)^2 + (pX dy - py dX)^2   (p, d relative to a),
+\* which lies between C2 / (dX^2 + 1) and C2 / dX^2 - so "16 C2 <= e4^2 (dX^2 + 1)" is implied by "within e4/4 of the segment".
+LongWithin(a, b, p, e4) ==
+    LET dX == b[1] - a[1] dy == b[2] - a[2] dz == b[3] - a[3] pX == p[1] - a[1] py == p[2] - a[2] pz == p[3] - a[3]
+        C2 == (pz * dX - pX * dz) * (pz * dX - pX * dz) + (pX * dy - py * dX) * (pX * dy - py * dX) IN
+    16 * C2 <= e4 * e4 * (dX * dX + 1)
+JSimplifyLong(r) ==
+    LET o == r.out kp == o.keep n == Len(r.pts)
+        shape == /\ Len(kp) >= 2 /\ Len(kp) = o.n /\ kp[1] = 1 /\ kp[Len(kp)] = n
+                 /\ \A j \in 1..(Len(kp) - 1) : kp[j] < kp[j + 1] IN
+    /\ Clause(i, "C05.simplify.finite", o.n_src = n /\ o.verbatim)
+    /\ Clause(i, "C05.simplify.subsequence_with_ends", shape)
+    /\ Clause(i, "C05.simplify.closedness", ~o.closed)
+    /\ shape => ClauseAll(i, "C05.simplify.within_tolerance", 1..(Len(kp) - 1), LAMBDA j :
+            \A k \in (kp[j] + 1)..(kp[j + 1] - 1) : LongWithin(r.pts[kp[j]], r.pts[kp[j + 1]], r.pts[k], r.e4))
+
 JFill(r) ==
     LET o == r.out
         RECURSIVE Greedy(_, _, _)
@@ -180,12 +218,12 @@ Judge(r) ==
     /\ Ran(r) =>
         CASE r.op = "stations" -> JStations(r)
           [] r.op = "resample" -> JResample(r)
-          [] r.op = "simplify" -> JSimplify(r)
+          [] r.op = "free" -> JFree(r) [] r.op = "simplify" -> JSimplify(r) [] r.op = "simplify_long" -> JSimplifyLong(r)
           [] r.op = "fill_gaps" -> JFill(r)
           [] r.op = "reset"    -> TRUE
           [] OTHER             -> Clause(i, "unknown-op", FALSE)
 
-Stateless(r) == r.op \in {"stations", "resample", "simplify", "fill_gaps"}
+Stateless(r) == r.op \in {"stations", "free", "resample", "simplify", "simplify_long", "fill_gaps"}
 
 Init == i = 1 /\ rv = <<>> /\ rc = FALSE /\ d = NoCurve /\ skip = FALSE /\ tolv = 0
 Next ==
